@@ -32,12 +32,14 @@ def gen_scenarios(rnd: random.Random, count, max_ops=5):
         else:
             ops = [[rnd.choice(MODES) for _ in range(nw)], [rnd.choice(MODES) for _ in range(nr)]]
         out.append({'cap': rnd.choice([0, 1, 1, 2, 2, 3]), 'ops': ops,
+                    # close(): the owner of the queue closes it after that many scheduling points of its own (None: never)
+                    'close_after': rnd.choice([None, None, None, 0, 3, 8, 15, 30, 60]),
                     'tmo': [rnd.choice([0, 0.01, 0.02, 0.5]) for _ in range(2)], 'line': rnd.random() < 0.8})
     return out
 
 
 def header(sc):
-    return {'cap': sc['cap'], 'ops': sc['ops']}
+    return {'cap': sc['cap'], 'ops': sc['ops'], 'mayclose': sc.get('close_after') is not None}
 
 
 def _make_scenario(sc):
@@ -130,6 +132,9 @@ def _make_scenario(sc):
                 except Full:
                     detsched.emit('Ret', t=1, ok=False, w=0, n=0)
                     continue
+                except ValueError:          # the queue is closed
+                    detsched.emit('Ret', t=1, ok=False, w=0, n=1)
+                    continue
                 detsched.emit('Ret', t=1, ok=True, w=1, n=n)
                 n += 1
 
@@ -142,11 +147,19 @@ def _make_scenario(sc):
                 except Empty:
                     detsched.emit('Ret', t=2, ok=False, w=0, n=0)
                     continue
+                except ValueError:
+                    detsched.emit('Ret', t=2, ok=False, w=0, n=1)
+                    continue
                 detsched.emit('Ret', t=2, ok=True, w=z[0], n=z[1])
 
         ths = [threading.Thread(target=writer, name='writer'), threading.Thread(target=reader, name='reader')]
         for t in ths:
             t.start()
+        if sc.get('close_after') is not None:
+            for _ in range(sc['close_after']):
+                detsched.checkpoint('owner')
+            sl.close()
+            detsched.emit('Close')
         for t in ths:
             t.join()
         detsched.emit('AllDone', qlen=sl.qsize(), locked=bool(proxy.locked()))
